@@ -1,8 +1,8 @@
 #!/bin/bash
-# usage: tools/confirm_seed.sh <id> <crate> <test-filter>
+# usage: tools/confirm_seed.sh <id> <crate> <test-filter> [extra cargo flags, e.g. "--features watch"]
 # In a scratch worktree: demo fails with the change, passes without; records the result in seeded/<id>/confirm.log
 set -u
-id=$1; crate=$2; filt=$3
+id=$1; crate=$2; filt=$3; extra=${4:-}
 W=/var/tmp/confirm/wt
 export CARGO_TARGET_DIR=/var/tmp/confirm/target
 mkdir -p /var/tmp/confirm
@@ -10,10 +10,10 @@ if [ ! -d $W ]; then git -C /repo worktree add -q --detach $W HEAD; fi
 cd $W && git checkout -q --detach $(git -C /repo rev-parse HEAD) && git reset -q --hard && git clean -qfd
 L=/verif/seeded/$id/confirm.log; : > $L
 git apply /verif/seeded/$id/patch.diff && git apply /verif/seeded/$id/demo.diff || { echo "apply failed" | tee -a $L; exit 2; }
-echo "## with change: cargo test -p $crate --offline $filt" >> $L
-nice -n 5 cargo test -p $crate --offline --lib -- --test-threads=4 $filt 2>&1 | grep -E "^test |test result|panicked|error(\[|:)" | head -40 >> $L
+echo "## with change: cargo test -p $crate --offline --lib $extra -- $filt" >> $L
+nice -n 5 cargo test -p $crate --offline --lib $extra -- --test-threads=4 $filt 2>&1 | grep -E "^test |test result|panicked|error(\[|:)" | head -40 >> $L
 git apply -R /verif/seeded/$id/patch.diff
 echo "## without change" >> $L
-nice -n 5 cargo test -p $crate --offline --lib -- --test-threads=4 $filt 2>&1 | grep -E "^test |test result|panicked|error(\[|:)" | head -40 >> $L
+nice -n 5 cargo test -p $crate --offline --lib $extra -- --test-threads=4 $filt 2>&1 | grep -E "^test |test result|panicked|error(\[|:)" | head -40 >> $L
 git reset -q --hard && git clean -qfd
 cat $L
